@@ -985,41 +985,65 @@ pub fn c11(c: &Collector, g: &mut Guard) {
             }
             cc.count("eightbit_cases", l.n);
         } else if part == 2 {
-            // mode switches between chunks at sequence boundaries
-            let pieces: Vec<Vec<u8>> = vec![b"a".to_vec(), "\u{e9}".as_bytes().to_vec(), vec![0xe9], vec![0xff], "\u{30a2}".as_bytes().to_vec(), vec![0x9b, b'5', b'A'], vec![0xc2, 0x9b, b'5', b'A']];
+            // mode switches between chunks, also while an incomplete sequence is pending.
+            // Reference = a streaming decoder with explicit state. D9 (narrowed): a tail pending at
+            // the moment of "@" is either forgotten or flushed as one U+FFFD at the switch; it must
+            // never combine with bytes that arrive after switching back.
+            let pieces: Vec<Vec<u8>> = vec![
+                b"a".to_vec(),
+                "\u{e9}".as_bytes().to_vec(),
+                vec![0xe9],
+                vec![0xff],
+                "\u{30a2}".as_bytes().to_vec(),
+                vec![0x9b, b'5', b'A'],
+                vec![0xc2, 0x9b, b'5', b'A'],
+                vec![b'x', 0xe2, 0x82],
+                vec![0xac, b'y'],
+                vec![0xc3],
+            ];
+            let reference = |chunks: &[Vec<u8>], sw: &[&str], flush_as_fffd: bool| -> Vec<Op> {
+                let mut utf8 = true;
+                let mut pending: Vec<u8> = Vec::new();
+                let mut rec = crate::recog::Recog::new(true);
+                for (i, ch) in chunks.iter().enumerate() {
+                    if i >= 1 {
+                        match sw[i - 1] {
+                            "@" => {
+                                if utf8 && !pending.is_empty() && flush_as_fffd {
+                                    rec.feed("\u{fffd}");
+                                }
+                                pending.clear();
+                                utf8 = false;
+                            }
+                            "G" | "8" => utf8 = true,
+                            _ => {}
+                        }
+                    }
+                    rec.utf8 = utf8;
+                    if utf8 {
+                        let mut bytes = std::mem::take(&mut pending);
+                        bytes.extend_from_slice(ch);
+                        let tail = utf8ref::incomplete_tail(&bytes);
+                        let s = utf8ref::decode(&bytes[..bytes.len() - tail], true);
+                        rec.feed(&s);
+                        pending = bytes[bytes.len() - tail..].to_vec();
+                    } else {
+                        rec.feed(&utf8ref::decode(ch, false));
+                    }
+                }
+                normalise(&rec.out)
+            };
             for p1 in &pieces {
                 for p2 in &pieces {
                     for p3 in &pieces {
                         for (m1, m2) in [("@", "G"), ("@", "8"), ("G", "@"), ("8", "@"), ("@", "@"), ("x", "G")] {
-                            // the pieces are complete sequences in UTF-8 mode only when valid: skip D9 shapes
-                            let pending = |p: &Vec<u8>, utf8: bool| utf8 && utf8ref::incomplete_tail(p) > 0;
                             let chunks = vec![p1.clone(), p2.clone(), p3.clone()];
-                            let mut modes = vec![true];
-                            let mut cur = true;
-                            for m in [m1, m2] {
-                                cur = match m {
-                                    "@" => false,
-                                    "G" | "8" => true,
-                                    _ => cur,
-                                };
-                                modes.push(cur);
-                            }
-                            if pending(p1, modes[0]) || pending(p2, modes[1]) {
-                                continue;
-                            }
                             l.n += 1;
-                            let mut exp: Vec<Op> = Vec::new();
-                            // expectation: per-segment decoding in the mode current for that chunk, fed to one recogniser
-                            let mut text = String::new();
-                            let mut rec = crate::recog::Recog::new(true);
-                            for (i, ch) in chunks.iter().enumerate() {
-                                rec.utf8 = modes[i];
-                                let tail = if modes[i] { utf8ref::incomplete_tail(ch) } else { 0 };
-                                let s = utf8ref::decode(&ch[..ch.len() - tail], modes[i]);
-                                text.push_str(&s);
-                                rec.feed(&s);
+                            let exp_a = reference(&chunks, &[m1, m2], false);
+                            let exp_b = reference(&chunks, &[m1, m2], true);
+                            if exp_a != exp_b {
+                                l.split_multibyte += 1;
                             }
-                            exp.extend(normalise(&rec.out));
                             let r = record_bytes(&chunks, true, &[(1, m1), (2, m2)]);
                             let op = Op::FeedBytes(chunks.clone(), true);
                             match r {
@@ -1036,7 +1060,7 @@ pub fn c11(c: &Collector, g: &mut Guard) {
                                 }),
                                 Ok(after) => {
                                     let obs = normalise(after.last().unwrap());
-                                    if !events_match(&exp, &obs) {
+                                    if !events_match(&exp_a, &obs) && !events_match(&exp_b, &obs) {
                                         cc.violation(Violation {
                                             property: "C11".into(),
                                             engine: "E3.mode-switch".into(),
@@ -1050,7 +1074,7 @@ pub fn c11(c: &Collector, g: &mut Guard) {
                                                 chunks.iter().map(|x| hex(x)).collect::<Vec<_>>().join(" | "),
                                                 m1,
                                                 m2,
-                                                exp.iter().map(|x| x.short()).collect::<Vec<_>>(),
+                                                exp_a.iter().map(|x| x.short()).collect::<Vec<_>>(),
                                                 obs.iter().map(|x| x.short()).collect::<Vec<_>>()
                                             ),
                                             extra: json!({"switch_before_chunk_1": m1, "switch_before_chunk_2": m2}),
